@@ -3,6 +3,7 @@ import Stgutg.Model.AperDec
 import Stgutg.Gen.NgapSchema
 import Stgutg.Spec.X691
 import Stgutg.Spec.Ts38413Leaf
+import Stgutg.Spec.Ts38413Schema
 namespace Driver
 open Stgutg Stgutg.Aper
 
@@ -111,13 +112,61 @@ partial def inScope : Val → Bool
   | .slice l => l.length < 16384 && l.all inScope
   | _ => true
 
-/-- the schema the oracle encodes under: the regenerated one with the TS 38.413 constraints tabled by hand -/
-def specSchema : Env := Spec.Ts38413.patchSchema schema
+/-- the schema the oracle encodes under: the frozen TS 38.413 table (Spec/Ts38413Schema.lean), with the constraints of the
+    simple types tabled by hand from clause 9.4.5 — NOT the schema regenerated from the struct tags, so that an edit of a tag
+    or of the component order in ngapType/*.go shows as implementation ≠ specification -/
+def specSchema : Env := Spec.Ts38413.patchSchema Spec.Ts38413Schema.schema
+def specFuel : Nat := 8 * (Spec.Ts38413Schema.schema.length + 1) + 1
+
+/-- a type of the regenerated schema in the TS 38.413 table: the type of the same name, else (renamed) of the same index -/
+def specTypeId (id : Nat) : Nat :=
+  match schema[id]? with
+  | some sd =>
+    match Spec.Ts38413Schema.schema.findIdx? (fun g => g.name == sd.name) with
+    | some k => k
+    | none => id
+  | none => id
+
+/-- The harness prints a Go struct value component by component in the order of the Go struct; what the value DENOTES is
+    given by the component names. `toSpecVal` re-arranges a value of the regenerated schema into the component order of the
+    TS 38.413 table by name (a CHOICE's `Present` index is re-mapped the same way); types whose component names do not all
+    have a counterpart (a renamed field) keep their order. So two components swapped in ngapType/*.go show up as a
+    different encoding, exactly as they would on the wire for a caller that sets the fields by name. -/
+partial def toSpecVal (ty : Ty) (v : Val) : Val :=
+  match ty, v with
+  | .ptr t, .ptr x => .ptr (toSpecVal t x)
+  | .slice t, .slice xs => .slice (xs.map (toSpecVal t))
+  | .struct id, .struct fs =>
+    match schema[id]? with
+    | none => v
+    | some sd =>
+      let named : List (String × Val) := (sd.fields.zip fs).map fun (f, x) => (f.name, toSpecVal f.ty x)
+      let keep : Val := .struct (named.map (·.2))
+      match Spec.Ts38413Schema.schema[specTypeId id]? with
+      | none => keep
+      | some g =>
+        if g.fields.length == named.length && g.fields.all (fun gf => named.any (fun n => n.1 == gf.name)) then
+          let vals : List Val := g.fields.map fun gf => match named.lookup gf.name with | some x => x | none => Val.nil
+          -- CHOICE: Present holds a position
+          match sd.fields, vals with
+          | f0 :: _, Val.int p :: rest =>
+            if f0.name == "Present" then
+              match sd.fields[p.toNat]? with
+              | some fp =>
+                match g.fields.findIdx? (fun gf => gf.name == fp.name) with
+                | some k => if p > 0 then .struct (.int k :: rest) else .struct vals
+                | none => .struct vals
+              | none => .struct vals
+            else .struct vals
+          | _, _ => .struct vals
+        else keep
+  | _, _ => v
 
 /-- spec column for an encode op: the X.691 encoding, `err` when the value is outside its constraints -/
-def specEnc (id : Nat) (p : Params) (v : Val) : String :=
+def specEnc (id : Nat) (p : Params) (v0 : Val) : String :=
+  let v := toSpecVal (.struct id) v0
   if !inScope v then "undef" else
-  match Spec.X691.encodePdu specSchema fuel (.struct id) p v with
+  match Spec.X691.encodePdu specSchema specFuel (.struct (specTypeId id)) p v with
   | some b => "ok " ++ toHex b
   | none => "err"
 
